@@ -431,3 +431,76 @@ pub fn check_c07_cli(case: &C07Cli) -> CaseResult {
 fn _u() {
     let _ = mbap_frame(0, 0, &[]);
 }
+
+
+/// Seed corpus for the libFuzzer targets: generated C07 cases in the targets' input encoding
+/// (6 header bytes, then the stream / the per-request answers) plus the golden vectors of the
+/// repository's own tests.
+pub fn export_fuzz_seeds(dir: &std::path::Path, n: usize, seed: u64) -> Result<usize, String> {
+    use proptest::strategy::{Strategy, ValueTree};
+    use proptest::test_runner::{Config, RngAlgorithm, TestRng, TestRunner};
+    let mut seed_bytes = [0u8; 32];
+    seed_bytes[..8].copy_from_slice(&seed.to_le_bytes());
+    let mut runner = TestRunner::new_with_rng(Config::default(), TestRng::from_seed(RngAlgorithm::ChaCha, &seed_bytes));
+    let srv_dir = dir.join("srv");
+    let cli_dir = dir.join("cli");
+    std::fs::create_dir_all(&srv_dir).map_err(|e| e.to_string())?;
+    std::fs::create_dir_all(&cli_dir).map_err(|e| e.to_string())?;
+    let mut count = 0;
+    let s = arb_c07_srv();
+    for i in 0..n {
+        let c = s.new_tree(&mut runner).map_err(|e| e.to_string())?.current();
+        let mut bytes = vec![
+            if c.cfg.framing == Fr::Mbap { 0 } else { 1 },
+            c.cfg.decode.app,
+            c.cfg.decode.frame,
+            c.cfg.decode.phys,
+            match c.finish {
+                Finish::Eof => 0,
+                Finish::Park => 1,
+                _ => 2,
+            },
+            (i % 6) as u8,
+        ];
+        bytes.extend_from_slice(&c.stream);
+        std::fs::write(srv_dir.join(format!("gen{:04}", i)), bytes).map_err(|e| e.to_string())?;
+        count += 1;
+    }
+    // golden vectors from rodbus/src/tcp/frame.rs and rodbus/src/serial/frame.rs tests
+    let golden: [(&str, u8, &[u8]); 4] = [
+        ("mbap_simple", 0, &[0x00, 0x07, 0x00, 0x00, 0x00, 0x03, 0x2A, 0x03, 0x04]),
+        ("mbap_read_holding", 0, &[0x00, 0x01, 0x00, 0x00, 0x00, 0x06, 0x01, 0x03, 0x00, 0x00, 0x00, 0x02]),
+        ("rtu_read_coils", 1, &[0x2A, 0x01, 0x00, 0x10, 0x00, 0x13, 0x7A, 0x19]),
+        ("rtu_read_holding", 1, &[0x2A, 0x03, 0x00, 0x10, 0x00, 0x03, 0x02, 0x15]),
+    ];
+    for (name, fr, b) in golden {
+        for lvl in [0u8, 3] {
+            let mut bytes = vec![fr, lvl, lvl.min(2), lvl.min(2), 0, 0];
+            bytes.extend_from_slice(b);
+            std::fs::write(srv_dir.join(format!("{}_{}", name, lvl)), bytes).map_err(|e| e.to_string())?;
+            count += 1;
+        }
+    }
+    let s = arb_c07_cli();
+    for i in 0..n {
+        let c = s.new_tree(&mut runner).map_err(|e| e.to_string())?.current();
+        let mut bytes = vec![
+            if c.framing == Fr::Mbap { 0 } else { 1 },
+            c.decode.app,
+            c.decode.frame,
+            c.decode.phys,
+            (c.requests.len().max(1) - 1) as u8,
+            (i % 6) as u8,
+        ];
+        for (k, (_u, _t, _r, answer, _cut)) in c.requests.iter().enumerate() {
+            bytes.push(k as u8);
+            let n = answer.len().min(299);
+            bytes.extend_from_slice(&(n as u16).to_le_bytes());
+            bytes.extend_from_slice(&answer[..n]);
+        }
+        bytes.extend_from_slice(&c.idle);
+        std::fs::write(cli_dir.join(format!("gen{:04}", i)), bytes).map_err(|e| e.to_string())?;
+        count += 1;
+    }
+    Ok(count)
+}
